@@ -242,7 +242,7 @@ func (s *Stream) next(ctx context.Context, block bool) bool {
 		s.mutex.Unlock()
 
 		// await next event
-		verifAwait("stream.wait", s, func() bool { return verifSignalReady(signal) || ctx.Err() != nil })
+		verifAwait("stream.wait", s, func() bool { return verifReady("stream.wait", verifSignalReady(signal), ctx.Err() != nil) })
 		select {
 		case _, ok := <-signal:
 			if !ok {
